@@ -48,7 +48,8 @@ MIN_NONTRIVIAL = {'quick': 1500, 'thorough': 3000}
 REQUIRED = ('range_forms_checked', 'range_plus_forms', 'range_interval_forms',
             'full_deals_checked', 'hilo_deals', 'no_low_deals',
             'engine_showdowns_compared', 'partial_deals_checked',
-            'icm_vectors_checked', 'icm_reference_compared')
+            'icm_vectors_checked', 'icm_reference_compared',
+            'dead_combination_deals', 'rank_order_passes')
 
 STD = '23456789TJQKA'
 SUITS = 'cdhs'
@@ -74,7 +75,8 @@ def combos(r0, r1, kind):
 
 def check_ranges(res, order=STD, rank_order=None):
     kw = {} if rank_order is None else {'rank_order': rank_order}
-    tag = 'std' if rank_order is None else 'short'
+    tag = 'std' if rank_order is None else (
+        'short' if len(order) == 9 else 'regular')
 
     def pr(*a):
         return parse_range(*a, **kw)
@@ -257,6 +259,10 @@ def engine_split(hand_types, deck, holes, board, nplayers):
     return [(p + 1) / total for p in s.payoffs]
 
 
+def text(cards):
+    return ''.join(map(repr, cards))
+
+
 def check_equities(res, rng):
     hts, deck, hole_n, board_n = rng.choice(TUPLES)
     hand_types = tuple(getattr(pk_hands, h) for h in hts)
@@ -304,6 +310,40 @@ def check_equities(res, rng):
         res.violation(f'fully specified deal but the equities depend on '
                       f'the sample count: {results}: {payload}', payload)
         return
+    if board and rng.random() < 0.4:
+        # ranges padded with DEAD combinations (each uses a board card, so
+        # it can never be dealt): the one feasible deal is
+        # unchanged, so the equities must be too, whatever is sampled
+        ranges = []
+        for i, h in enumerate(holes):
+            rg = [tuple(h)]
+            for _ in range(rng.randint(1, 3)):
+                dead = list(h)
+                dead[rng.randrange(hole_n)] = rng.choice(board)
+                if len(set(dead)) == hole_n:
+                    rg.append(tuple(dead))
+            rng.shuffle(rg)
+            ranges.append(rg)
+        res.counters['dead_combination_deals'] += 1
+        for k in (1, 9):
+            try:
+                eq = calculate_equities(ranges, board, hole_n, board_n,
+                                        Deck[deck], hand_types,
+                                        sample_count=k)
+            except Exception as exc:   # noqa: BLE001
+                res.violation(f'calculate_equities raised '
+                              f'{type(exc).__name__}: {exc} with dead '
+                              f'combinations {ranges} for {payload}',
+                              payload)
+                return
+            if any(abs(a - b) > 1e-9 for a, b in zip(results[0], eq)):
+                res.violation(
+                    f'ranges padded with dead combinations (each uses a '
+                    f'board card) change the equities: {eq} vs '
+                    f'{results[0]}; ranges '
+                    f'{[[text(c) for c in r] for r in ranges]}: {payload}',
+                    payload)
+                return
     try:
         exp = engine_split(hts, deck, holes, board, n)
     except Exception as exc:   # noqa: BLE001
@@ -434,11 +474,23 @@ def check_icm(res, rng):
 def run_shard(seed, shard, of, tier, deadline):
     res = Shard()
     rng = random.Random(shard_seed(seed, PROP, shard))
-    if shard == 0 or tier == 'thorough':
-        check_ranges(res)
-    if shard == 1 or (of == 1):
-        check_ranges(res, order='6789TJQKA',
-                     rank_order=RankOrder.SHORT_DECK_HOLDEM)
+    # the three rank orders are exercised one after the other in the same
+    # process, in a different sequence per shard (answers may depend on the
+    # arguments only, not on what was parsed before)
+    seqs = {0: ('std', 'short', 'regular', 'std'),
+            1: ('short', 'std', 'regular', 'short'),
+            2: ('regular', 'short', 'std')}
+    for which in seqs.get(shard if of > 1 else 0,
+                          ('std',) if tier == 'thorough' else ()):
+        if which == 'std':
+            check_ranges(res)
+        elif which == 'short':
+            check_ranges(res, order='6789TJQKA',
+                         rank_order=RankOrder.SHORT_DECK_HOLDEM)
+        else:
+            check_ranges(res, order='A23456789TJQK',
+                         rank_order=RankOrder.REGULAR)
+        res.counters['rank_order_passes'] += 1
     n = max(1, CASES[tier] // of)
     for k in range(n):
         if time.time() > deadline:
@@ -465,11 +517,13 @@ def replay(payload):
     rng = random.Random(1)
     k = payload.get('kind')
     if k == 'range':
-        if payload.get('order') == 'short':
-            check_ranges(res, order='6789TJQKA',
-                         rank_order=RankOrder.SHORT_DECK_HOLDEM)
-        else:
-            check_ranges(res)
+        # (order effects: replay the sequence the shards use)
+        check_ranges(res)
+        check_ranges(res, order='6789TJQKA',
+                     rank_order=RankOrder.SHORT_DECK_HOLDEM)
+        check_ranges(res, order='A23456789TJQK',
+                     rank_order=RankOrder.REGULAR)
+        check_ranges(res)
     elif k == 'icm':
         v = calculate_icm(payload['payouts'], payload['chips'])
         ref = ref_icm(payload['payouts'], payload['chips'])
